@@ -94,12 +94,10 @@ func (o *Obligation) sliceFrom(defsOnly bool, from int) map[int]bool {
 				}
 			}
 			if defsOnly && !isDef && !strings.Contains(a, "gh") {
-				// ground slice: besides definitions and ghost facts, keep quantifier-free facts that
-				// speak only about symbols already in the cone (well-formedness of loaded values,
-				// run-time checks that passed, preserved cells)
-				if strings.Contains(a, "(forall ") || strings.Contains(a, "(exists ") {
-					continue
-				}
+				// ground slice: besides definitions and ghost facts, keep the facts that speak only about
+				// symbols already in the cone (well-formedness of loaded values, run-time checks that
+				// passed, preserved cells; quantified ones too: what a call or a loop left unchanged
+				// between two memory versions of the cone, immutable fields)
 				all := true
 				for _, sy := range vc.assertSyms[i] {
 					if !rel[sy] {
@@ -206,6 +204,9 @@ func (o *Obligation) queryWith(withModel bool, keep map[int]bool) string {
 	}
 	if o.Cover {
 		sb.WriteString("(assert " + o.guard + ")\n")
+		if o.formula != "" && o.formula != "true" {
+			sb.WriteString("(assert " + o.formula + ")\n")
+		}
 	} else {
 		sb.WriteString("(assert " + o.guard + ")\n")
 		sb.WriteString("(assert (not " + o.formula + "))\n")
